@@ -161,12 +161,19 @@ def dfxp_offset(c):
 
 def dfxp_begin_dur(c):
     """begin + dur, and the missing-attribute errors, on an abstract <p> (A: Tag.get / __getitem__)"""
-    which = c.pick("attrs", ["begin,end", "begin,dur", "begin", "end", "dur,end", "begin,dur,end"])
+    which = c.pick("attrs", ["begin,end", "begin,dur", "begin", "end", "dur,end", "begin,dur,end", "begin,dur(clock)"])
     B, D, E = c.digits("B", lo=1), c.digits("D", lo=1), c.digits("E", lo=1)
     attrs = {}
+    dur_us = D.val * 1000
     if "begin" in which:
         attrs["begin"] = B + "s"
-    if "dur" in which:
+    if "dur(clock)" in which:
+        # a duration spelled as a clock time hh:mm:ss.fff
+        DM, DS, DF = c.digits("DM", n=2), c.digits("DS", n=2), c.digits("DF", n=3)
+        c.assume(c.conj(DM.val < 60, DS.val < 60))
+        attrs["dur"] = D + ":" + DM + ":" + DS + "." + DF
+        dur_us = hms(D.val, DM.val, DS.val) + DF.val * 1000
+    elif "dur" in which:
         attrs["dur"] = D + "ms"
     if "end" in which:
         attrs["end"] = E + "s"
@@ -179,7 +186,7 @@ def dfxp_begin_dur(c):
         c.ensure("accepted", not isinstance(r, Raised))
         if not isinstance(r, Raised):
             c.ensure("start", r[0] == B.val * US)
-            c.ensure("end", r[1] == (E.val * US if "end" in which else B.val * US + D.val * 1000))
+            c.ensure("end", r[1] == (E.val * US if "end" in which else B.val * US + dur_us))
 
 
 class AbstractTag(dict):
